@@ -173,6 +173,7 @@ type Process struct {
 	flowNodeMapping    *FlowNodeMapping
 	flowWaitGroup      sync.WaitGroup
 	complete           sync.RWMutex
+	monitorOnce        sync.Once
 	eventConsumersLock sync.RWMutex
 	eventConsumers     []event.IConsumer
 	subTracer          tracing.ITracer
@@ -606,8 +607,13 @@ func (p *Process) StartWith(ctx context.Context, element schema.FlowNodeInterfac
 		// StartAll cease flow monitor: it subscribes to the traces (and takes the completion
 		// lock) before the start event is triggered, otherwise the start event's own
 		// flow trace can be broadcast before anybody listens and completion is never reported
-		sender := p.tracer.RegisterSender()
-		go p.ceaseFlowMonitor(p.subTracer)(ctx, sender)
+		// one monitor per instance: it waits for ALL start events, so a second one (created by
+		// the next StartWith) would only block on the completion lock with a subscription
+		// nobody reads, which stalls the tracer
+		p.monitorOnce.Do(func() {
+			sender := p.tracer.RegisterSender()
+			go p.ceaseFlowMonitor(p.subTracer)(ctx, sender)
+		})
 		verifhook.Point("process.startwith.after_monitor")
 
 		verifhook.Point("process.startwith.before_trigger")
